@@ -19,7 +19,7 @@ ID = 'C01'
 LEVEL = 'model_checking'
 TECHNIQUE = 'explicit-state search over lexer-class sequences of the bracket reader + bounded exhaustive corpus/layout/option sweep of all readers, independent encoders and reference parser'
 
-TOKNAMES = ['NP-SBJ', 'S', 'x=1', 'VP-HD-2', 'w', "N'"]
+TOKNAMES = ['NP-SBJ', 'S', 'x=1', 'VP-HD-2', 'w', "N'", 'A-', 'B--1']
 WS_STYLES = [' ', '\n', '\t ']
 CLASSES = ['(', ')', 'ws', 'tok']
 
@@ -200,7 +200,7 @@ def search(prefix, maxlen, res, variants):
 
 # =================================================================== (b) corpora
 WORDS = ['a', ',', '&', '<', '"', "'", 'ä', '日', '#', '-LRB-', '*T*-1', 'b', '#7', '#12', '#1234']
-LABELS = ['NP-SBJ-1', 'NP=2', 'S', 'VP-HD', 'PP', "AP'"]
+LABELS = ['NP-SBJ-1', 'NP=2', 'S', 'VP-HD', 'PP', "AP'", 'APPR-', 'NX--3']
 
 
 def pool():
